@@ -22,7 +22,7 @@ CHECKS = {
                 text="MCDriver exhausts every configuration/outcome sequence within small constants with C03_* invariants; traces of real runs (objective values as exact dense ranks) are validated by TLC, C03_Monotone/C03_ResultNotWorse/C03_LSStartsAtIterate evaluated in every state.",
                 ref="4.1, 7/C03", note=DRIVER_NOTE),
     "C04": dict(cat="model_checking", tech="TLC model checking of the configuration lattice of Driver + TLC trace validation of the same lattice driven through the real solver",
-                text="All C04_* invariants (documented reason, truth of each reason, success flag, budgets, one-shot stop callables) hold in every reachable state of MCDriver over the configuration lattice incl. restarts below the checkpoint's nit; the same lattice is run on the real solver and every trace validated (message vs facts recomputed by the harness).",
+                text="All C04_* invariants (documented reason, truth of each reason, success flag, budgets, one-shot stop callables) hold in every reachable state of MCDriver over the configuration lattice incl. restarts below the checkpoint's nit; the same lattice is run on the real solver and every trace validated (message vs facts recomputed by the harness). Runs in every gradient mode and on every kind of box (degenerate sides included), and budget sweeps placed around the natural end of runs that finish in the round-off regime, are part of the trace corpus.",
                 ref="4.1, 7/C04", note=DRIVER_NOTE),
     "C05": dict(cat="model_checking", tech="TLC model checking of Driver x memo cell + TLC trace validation with bit-exact re-evaluation facts",
                 text="Driver models the wrapper's memo cell; C05_* invariants checked exhaustively; real traces carry funOk/jacOk (bit-for-bit re-evaluation) and reported counters, compared by TLC with the model's own count of call events.",
@@ -43,13 +43,13 @@ CHECKS = {
                 text="ScalarFn.tla (memo cell, counters, scale, caller mutation; callable and FD modes) is exhausted; every history up to length 4 (quick) / 6 (thorough) over {fun, grad, fun_and_grad} x 3 points incl. a near-duplicate point, scale changes and caller overwrites is executed on the real wrapper in all five gradient modes and validated by TLC.",
                 ref="4.3, 7/C15", note="Trusted: TLC; the harness-side log of user calls and its bit-exact comparison with fresh evaluations; the adopted reading of 'not re-evaluated' (single memo cell)."),
     "C17": dict(cat="model_checking", tech="TLC validation of merged evaluation traces (scaler run vs explicitly scaled run) against the Equiv monitor, exact mode + DriverTrace clauses",
-                text="Relation between two complete runs: every evaluation point, x, fun, jac, counters, pairs and message bit-identical; scaler called once with (x0, unscaled g0, bounds); target on the unscaled value. Decided per pair of real runs by TLC on the merged trace; s in [1e-3, 1e3] and the packaged scaler.",
+                text="Relation between two complete runs: every evaluation point, x, fun, jac, counters, pairs and message bit-identical; scaler called once with (x0, unscaled g0, bounds); target on the unscaled value. Decided per pair of real runs by TLC on the merged trace; s in [1e-3, 1e3] and the packaged scaler. Finite-difference modes are covered with power-of-two factors; a restart with a scaler and a target met at the start point are exercised and matched against two recorded known findings.",
                 ref="4.9, 7/C17", note=DRIVER_NOTE),
     "C18": dict(cat="model_checking", tech="TLC model checking of pair provenance in Driver/Memory + TLC trace validation of bit-exact provenance facts of real runs + lattice replay of the inverse-diagonal utility",
-                text="Driver: pairs = consecutive retained iterates, count <= maxcor, chronological; Memory.tla: exact two-loop inverse diagonal replayed into LbfgsInvHessProduct/extract_hess_inv_diag; real runs (incl. callbacks, restart chains): each sk/yk row matched bit-exactly to differences of visited iterates / user gradients, validated by TLC. For large random pair sets diag == todense().diagonal() is a logged relation.",
+                text="Driver: pairs = consecutive retained iterates, count <= maxcor, chronological; Memory.tla: exact two-loop inverse diagonal replayed into LbfgsInvHessProduct/extract_hess_inv_diag; real runs (incl. callbacks, restart chains): each sk/yk row matched bit-exactly to differences of visited iterates / user gradients, validated by TLC. For large random pair sets diag == todense().diagonal() is a logged relation. Rewritten histories (update functions, incl. the iteration in which the run stops and the initial call of a restart) are judged on the same clauses; MCDriver_rewrite.cfg is part of the design run.",
                 ref="4.4, 7/C18", note=DRIVER_NOTE + " Known finding KF-C18-inherited-pairs (pairs inherited through a restart are exact only up to rounding)."),
     "C20": dict(cat="fault_enumeration", tech="TLC model checking of Raise/Propagate in Driver + enumeration of fault injection points replayed on the real solver, traces validated by TLC",
-                text="Design: after Raise only Propagate. Every call index (capped) of every callable kind of the explored runs x several exception types is injected; the trace must show the same exception object reaching the caller; the identical fault-free call afterwards equals the fresh-process result bit-for-bit; module-level mutable objects unchanged.",
+                text="Design: after Raise only Propagate. Every call index (capped) of every callable kind of the explored runs x several exception types is injected; the trace must show the same exception object reaching the caller; the identical fault-free call afterwards equals the fresh-process result bit-for-bit; module-level mutable objects unchanged. Eleven exception types per injection point near the start of a run (incl. StopIteration and a BaseException subclass); one recorded known finding (StopIteration inside SciPy's stencil evaluation).",
                 ref="4.1, 4.8, 7/C20", note=DRIVER_NOTE),
     "C01": dict(cat="model_checking", tech="TLC model checking of Driver under the convex environment contract with fairness (liveness) + exact KKT oracle (BoxQP.tla) replayed into the solver + TLC validation of traces/results of random convex runs",
                 text="Composition argument: Driver terminates at a stationary point and never reports ABNORMAL when the kernels honour their contracts (C08-C11 discharge those); every integer box-QP of the lattice (n <= 3, all boxes, all lattice starts) is solved by the real code and compared with TLC's exact KKT point; random convex families (n <= 12) are judged on the caller-side projected gradient whatever the message. Convergence on float families is exploration, exact decision only on the lattice.",
@@ -64,7 +64,7 @@ CHECKS = {
                 text="Differential comparison with the reference implementation shipped in SciPy, orchestrated and judged by the TLA+ monitor: lock-step on every objective evaluation of the first 12 iterations unless a documented deviation or round-off is logged; same optimal value on convex box problems. TLA+ cannot compute the reference trajectories; it contributes the acceptance rule, the pinned constants and the exact algebra.",
                 ref="4.9, 7/C12, 8", note="Trusted: SciPy's L-BFGS-B as the reference; the harness-side detection of deviation triggers; tolerance rtol 1e-7 on points."),
     "C13": dict(cat="model_checking", tech="TLC model checking of the update-function actions in Driver and of the filter laws in Memory.tla + lattice replay into make_X_and_G_respect_strong_wolfe + Equiv monitor on identity / switching / restart relations",
-                text="Identity update function is neutral (bit-exact, incl. message); after a rewrite at iteration k the pairs are bit-exact differences of the rewritten gradients, every retained pair has curvature, the newest point is retained, and the continuation equals a restart on the new objective from the state holding the rewritten history.",
+                text="Identity update function is neutral (bit-exact, incl. message); after a rewrite at iteration k the pairs are bit-exact differences of the rewritten gradients, every retained pair has curvature, the newest point is retained, and the continuation equals a restart on the new objective from the state holding the rewritten history. The design model also decides, for rewriting update functions with restarts (MCDriver_rewrite.cfg), that every result / callback state carrying pairs holds a sequence filtered after the last redefinition and that the target is tested before ftol (invariants C13_ReturnFiltered, C13_SnapFiltered, C13_TargetFirst; fixes ad0fb3f, 645f7b7, 32361ca).",
                 ref="4.1, 4.4, 7/C13", note=DRIVER_NOTE),
     "C14": dict(cat="model_checking", tech="TLC enumeration of all interleavings / nestings of two runs' yield points (Interleave.tla) replayed on threads with a hand-off scheduler + Equiv monitor (exact) on solo-vs-scheduled, repeated, read-only, logging and restart-twice relations",
                 text="All 70 (quick) / 924 (thorough) schedules of the first 4 / 6 objective calls of two runs and all nestings are replayed on the real code; results and evaluation logs must equal the solo runs bit-for-bit; inputs (x0, bounds, checkpoint) untouched and accepted read-only; iprint x logger has no numerical influence; restarting twice from one checkpoint gives the same result.",
